@@ -422,8 +422,14 @@ def monitor_euler_roundtrip(ck, kind, dn, rng, shape, eps):
     entry = f"{kind}.euler"
     wit = lambda i: {"kind": kind, "dtype": dn, "eps": eps_v, "X": Xr[i % len(Xr)].tolist(),  # noqa: E731
                      "X_hex": [float(v).hex() for v in Xr[i % len(Xr)]], "sin_pitch_ref": float(sinp[i % len(Xr)])}
-    ok, ang = conv_call(ck, "euler_roundtrip", reg, entry, (lambda: X.euler()) if eps is None else (lambda: X.euler(eps=eps)),
-                        lambda: wit(0))
+    # call forms: the method, and the function pp.euler (positional and keyword eps)
+    form = ("method", "function", "function-keyword")[int(rng.integers(0, 3))]
+    ck.mark("euler/form:" + form + ("" if eps is None else "/explicit-eps"))
+    call = {"method": (lambda: X.euler()) if eps is None else (lambda: X.euler(eps=eps)),
+            "function": (lambda: pp.euler(X)) if eps is None else (lambda: pp.euler(X, eps)),
+            "function-keyword": (lambda: pp.euler(X)) if eps is None else (lambda: pp.euler(X, eps=eps))}[form]
+    entry = entry if form == "method" else "convert.euler"
+    ok, ang = conv_call(ck, "euler_roundtrip", reg, entry, call, lambda: dict(wit(0), call_form=form))
     if not ok:
         return
     if not ck.check(tuple(ang.shape) == tuple(shape) + (3,) and ang.dtype == dtype and not isinstance(ang, pp.LieTensor),
@@ -690,6 +696,7 @@ def run(ck):
     if ck.shard == 1 % ck.nshards:
         monitor_euler2SO3_argument_forms(ck, rng)
     ck.require(*["euler2SO3/form:" + f_ for f_ in ("list-of-ints", "nested-list-of-ints", "int64-tensor", "int32-tensor", "list-of-floats")])
+    ck.require("euler/form:function/explicit-eps", "euler/form:function-keyword/explicit-eps", "euler/form:method/explicit-eps")
     ck.require("check/autograd:requires_grad", "check/autograd:parameter", "check/autograd:non-leaf", "check/autograd:no_grad")
     ck.floor("from_matrix_ref", 20000)
     ck.floor("from_matrix_pp", 5000)
